@@ -154,7 +154,7 @@ def evaluate(case):
         # the same viewBox with another legal separator between its numbers
         import re as _re
 
-        src = _re.sub(r'viewBox="([^"]+)"', lambda m: 'viewBox="' + case["vbsep"].join(m.group(1).split()) + '"', src, count=1)
+        src = _re.sub(r'viewBox="([^"]+)"', lambda m: 'width="200" height="150" viewBox="' + case["vbsep"].join(m.group(1).split()) + '"', src, count=1)
     o, why, out, st = judge(src, vb, case["seed"], case["tier"], case.get("via", "lib"))
     straddle = any(g in (0.0, 1.0) for _, gx, gy in items for g in (gx, gy)) or case.get("covering", False) or case.get("hair", False)
     outside = any(g in (-0.42, 1.42) for _, gx, gy in items for g in (gx, gy))
